@@ -294,6 +294,50 @@ func scenarioC05(r *Run) {
 				r.Probe("modification-rejected-half-way")
 			}
 		}
+		if !lossy && ending != "report-not-found" && len(s.PDRs) >= 2 && s.PDRs[0].SrcIface == IfAccess && r.Ch.Choose(6, "duplicated-create-pdr-choose") == 1 {
+			// a Session Modification that creates a PDR pair whose uplink PDR asks for a
+			// UP-chosen TEID, delivered twice (duplicated datagram): however the agent
+			// deals with the copy, everything chosen for either delivery comes back at the end
+			maxID := uint16(0)
+			for _, x := range s.PDRs {
+				if x.ID > maxID {
+					maxID = x.ID
+				}
+			}
+			ul, dl := s.PDRs[0].clone(), s.PDRs[1].clone()
+			f := g.Flow(false)
+			ul.ID, ul.Precedence, ul.SDF = maxID+1, 40, f
+			dl.ID, dl.Precedence, dl.SDF = maxID+2, 40, f
+			ul.TEIDChoose, ul.TEID, ul.GotTEID = true, 0, 0
+			if ul.UEIPAlloc {
+				ul.UEIPAlloc, ul.UEIP = false, ul.GotUEIP
+			}
+			if dl.UEIPAlloc {
+				dl.UEIPAlloc, dl.UEIP = false, dl.GotUEIP
+			}
+			m := &ModSpec{Tag: "cP:choose:twice", CreatePDR: []*PDRSpec{ul, dl}}
+			msg := p.ModifyMsg(s.UPSEID, m)
+			raw := Marshal(msg)
+			p.SendRaw(raw)
+			p.SendRaw(raw)
+			r.Sim.RunFor(300 * time.Millisecond)
+			nresp, acc := 0, 0
+			for _, rx := range p.Rx {
+				if rx.Err == nil && !rx.Used && rx.Msg.MessageType() == message.MsgTypeSessionModificationResponse && rx.Msg.Sequence() == msg.Sequence() {
+					rx.Used = true
+					nresp++
+					if c, _ := CauseOf(rx.Msg); c == ie.CauseRequestAccepted {
+						acc++
+					}
+				}
+			}
+			if acc > 0 {
+				s.ApplyMod(m)
+			}
+			r.Fault("modification-datagram-duplicated")
+			r.Op("  modification creating PDR %d with a CHOOSE F-TEID delivered twice: %d responses, %d accepted", ul.ID, nresp, acc)
+			r.Skel(fmt.Sprintf("mod:cP:choose:twice:%d", acc))
+		}
 		ueGot := s.PDRs[1].GotUEIP
 		if ending != "report-not-found" && !lossy && r.Ch.Choose(5, "remove-base-pdr") == 1 {
 			// an accepted modification takes away the very PDR through which the UE
